@@ -559,3 +559,31 @@ Qed.
 Theorem shift_dual_feasible_inv d xm sel pi :
   Inv d -> dual_feasible (n_arcs (shift_net d xm sel)) pi = true -> Inv (apply_shift d (positions_of sel pi)).
 Proof. intros Hd H. apply shift_inv; [exact Hd|]. exact (shift_dual_feasible_legal d xm sel pi H). Qed.
+
+(* the x wirelength splits into the nets touching a selected cell (the objective of the linear programme) and
+   the other nets, whose extents do not depend on the positions given to the selected cells *)
+Definition touched_value (xm : incr) (sel : list nat) (x : nat -> Z) : Z :=
+  lsum (fun nx => net_ext sel (ipos xm) x (snd nx)) (touched_nets sel (inets xm)).
+Definition untouched_value (xm : incr) (sel : list nat) : Z :=
+  lsum (fun nx => extent (map (ipin_pos (ipos xm)) (snd nx))) (filter (fun nx => negb (touches sel (snd nx))) (indexed (inets xm))).
+
+Theorem xvalue_touched_untouched xm sel x :
+  Forall (fun c => (c < length (ipos xm))%nat) sel ->
+  xvalue xm (assign sel x) = touched_value xm sel x + untouched_value xm sel.
+Proof.
+  intros Hr. rewrite (xvalue_split xm sel x Hr). unfold touched_value, untouched_value. f_equal.
+  apply lsum_ext. intros nx H. apply filter_In in H as [_ H]. apply negb_true_iff in H.
+  unfold net_ext. f_equal. apply map_ext_in. intros p Hp. unfold pin_at, ipin_pos.
+  destruct (mem (fst p) sel) eqn:M; [|reflexivity]. exfalso.
+  assert (touches sel (snd nx) = true) by (unfold touches; apply existsb_exists; exists p; split; assumption). congruence.
+Qed.
+
+Theorem shift_cert_optimal_touched d xm sel pi f x' :
+  Forall (fun c => (c < length (ipos xm))%nat) sel ->
+  shift_cert_ok (shift_net d xm sel) pi f = true ->
+  shift_ok d (assign sel x') = true ->
+  touched_value xm sel (x_of pi) <= touched_value xm sel x'.
+Proof.
+  intros Hr Hc Hx'. pose proof (shift_cert_optimal d xm sel pi f x' Hr Hc Hx') as H.
+  unfold positions_of in H. rewrite !(xvalue_touched_untouched xm sel _ Hr) in H. lia.
+Qed.
